@@ -226,6 +226,8 @@ def build(spec):
         m = dn
     elif metric == "fval" and has_values and ref is not None:
         m = target(x) - target(ref)
+    elif metric == "negdist":
+        m = -dn + 0.5 * d0          # bounded above whatever the class: used when no optimum is declared
     elif metric == "grad":
         gl = target.gradient(x) if kind in ("f", "o", "lin0") else (x - target.gradient(x) if kind == "fix" else g0)
         m = gl ** 2
@@ -298,6 +300,13 @@ def build(spec):
             y1 = y0 - f2.gradient(y0)
             p.add_constraint((y1 - ys) ** 2 <= dn + 1)
             c.points["y1"] = y1
+            # own constraints on two different functions (and an own LMI on the second one)
+            f.add_constraint(d0 <= 2.5)
+            f2.add_constraint((y0 - ys) ** 2 <= 2.0, name="f2_con")
+            e2 = Expression()
+            c.exprs["e_f2"] = e2
+            f2.add_psd_matrix([[(y1 - ys) ** 2 + 1, e2], [e2, 1]])
+            p.add_constraint(e2 <= 3)
         elif ex == "dup_eval":
             # evaluate again where the function was already evaluated (same decomposition, another object)
             target.oracle(1 * x0)
@@ -339,7 +348,7 @@ def enumerate_specs(tier, family="core"):
             pats = pats + ["none"]
         for par in pars:
             for pat in pats:
-                for metric in (info["metrics"][:1] if quick else info["metrics"]):
+                for metric in (["negdist"] if pat == "none" else info["metrics"][:1] if quick else info["metrics"]):
                     for init in (["dist"] if quick else ["dist", "dist_eq", "fval"]):
                         if init == "fval" and (info["kind"] != "f" or pat == "none"):
                             continue
